@@ -5,7 +5,7 @@ use crate::refopt::{self, norm2, RefLink};
 use crate::Out;
 use linfa::traits::{Fit, Predict, PredictInplace};
 use linfa::ParamGuard;
-use crate::layout::{expand, lay};
+use crate::layout::{expand, lay, lay_targets};
 use linfa::DatasetBase;
 use linfa_linear::{LinearError, Link, TweedieRegressor};
 use lvmc_core::{guarded, Violation};
@@ -46,6 +46,13 @@ pub struct TwCase {
     /// builder cases: also fit with that history and compare bit-wise with the canonical history
     #[serde(default)]
     pub builder_fit: bool,
+    /// setters that are NOT called at all: the case then carries the documented default of that parameter
+    /// (alpha 1, intercept on, power 1, link = identity for power <= 0 and log otherwise, max_iter 100, tol 1e-4)
+    #[serde(default)]
+    pub skip_setters: Vec<u8>,
+    /// layout of the 1-D target array handed to fit (standard | reversed_view | stepped_view | owned_inverted)
+    #[serde(default = "crate::std_layout")]
+    pub target_layout: String,
 }
 
 fn link_of(name: &str) -> Link {
@@ -71,6 +78,9 @@ macro_rules! build_impl {
                 }
                 let decoy = pass == 0;
                 for &s in order {
+                    if case.skip_setters.contains(&s) {
+                        continue;
+                    }
                     p = match s {
                         0 => p.alpha(if decoy { 7.5 } else { case.alpha as $F }),
                         1 => p.fit_intercept(if decoy { !case.intercept } else { case.intercept }),
@@ -90,6 +100,25 @@ build_impl!(build_f32, f32);
 const CANONICAL: [u8; 6] = [0, 1, 2, 3, 4, 5];
 
 impl TwCase {
+    /// parameters whose setter is never called carry the documented default
+    pub fn normalised(&self) -> TwCase {
+        let mut c = self.clone();
+        for &s in &self.skip_setters {
+            match s {
+                0 => c.alpha = 1.0,
+                1 => c.intercept = true,
+                2 => c.power = 1.0,
+                4 => c.max_iter = 100,
+                5 => c.tol = 1e-4,
+                _ => {}
+            }
+        }
+        if c.skip_setters.contains(&3) {
+            // rustdoc of `link`: identity for the Normal distribution (power <= 0), log for power >= 1
+            c.link = if c.power <= 0.0 { "identity".into() } else { "log".into() };
+        }
+        c
+    }
     pub fn builder_variant(&self) -> bool {
         self.setter_order.is_some() || self.decoys || self.ctor != "default"
     }
@@ -180,10 +209,11 @@ macro_rules! fit_impl {
             let d = xs[0].len();
             let rows: Vec<Vec<$F>> = xs.iter().map(|r| r.iter().map(|&v| v as $F).collect()).collect();
             let laid = lay(&rows, &case.fit_layout, <$F>::NAN);
-            let y: Array1<$F> = Array1::from(case.ys().iter().map(|&v| v as $F).collect::<Vec<$F>>());
-            let ds = DatasetBase::new(laid.view(), y);
+            let yv: Vec<$F> = case.ys().iter().map(|&v| v as $F).collect();
+            // filler entries of the stepped view: a different, still in-support value
+            let ty = lay_targets(&yv, &case.target_layout, &|i| yv[(i + 1) % yv.len()] * 0.5 + 0.25);
             let params = $build(case, &case.order(), case.decoys, &case.ctor);
-            match guarded(|| params.fit(&ds)) {
+            match guarded(|| if ty.is_owned_kind() { params.fit(&DatasetBase::new(laid.view(), ty.owned())) } else { params.fit(&DatasetBase::new(laid.view(), ty.view())) }) {
                 Ok(Ok(m)) => {
                     let w: Vec<f64> = m.coef.iter().map(|&v| v as f64).collect();
                     let b = m.intercept as f64;
@@ -197,10 +227,26 @@ macro_rules! fit_impl {
                             // caller-owned buffer full of NaN: every entry must be overwritten
                             let mut buf: Array1<$F> = Array1::from_elem(plain.len(), <$F>::NAN);
                             m.predict_inplace(&q, &mut buf);
-                            (plain, buf)
+                            // every calling form of predict and a one-row batch
+                            let nq = plain.len();
+                            let q_owned = q.to_owned();
+                            let a: DatasetBase<ndarray::Array2<$F>, Array1<$F>> = m.predict(q_owned.clone());
+                            let b: DatasetBase<ndarray::Array2<$F>, Array1<$F>> = m.predict(DatasetBase::new(q_owned.clone(), Array1::<u8>::zeros(nq)));
+                            let dsq = DatasetBase::new(q_owned.clone(), Array1::<u8>::zeros(nq));
+                            let c: Array1<$F> = m.predict(&dsq);
+                            let dsv = DatasetBase::new(q.clone(), Array1::<u8>::zeros(nq));
+                            let d2: Array1<$F> = m.predict(&dsv);
+                            let one = q.slice(ndarray::s![0..1, ..]);
+                            let e: Array1<$F> = m.predict(&one);
+                            let bits = |v: &Array1<$F>| v.iter().map(|x| (*x as f64).to_bits()).collect::<Vec<u64>>();
+                            let forms_ok = [&a.targets, &b.targets, &c, &d2].iter().all(|v| bits(v) == bits(&plain)) && e.len() == 1 && {
+                                let (x, y) = (e[0] as f64, plain[0] as f64);
+                                x == y || (x - y).abs() <= 1e-6 * y.abs().max(1e-300)
+                            };
+                            (plain, buf, forms_ok)
                         }) {
-                            Ok((p, buf)) => {
-                                let same = p.len() == buf.len() && p.iter().zip(buf.iter()).all(|(a, c)| a.to_bits() == c.to_bits());
+                            Ok((p, buf, forms_ok)) => {
+                                let same = forms_ok && p.len() == buf.len() && p.iter().zip(buf.iter()).all(|(a, c)| a.to_bits() == c.to_bits());
                                 let mut v: Vec<f64> = p.iter().map(|&v| v as f64).collect();
                                 // trailing flag: 1.0 = predict_inplace into the poisoned buffer agrees bit-wise with predict
                                 v.push(if same { 1.0 } else { 0.0 });
@@ -293,13 +339,23 @@ fn power_class(p: f64) -> &'static str {
 }
 
 pub fn run(case: &TwCase, viols: &mut Vec<Violation>) -> Out {
+    let normalised = case.normalised();
+    let case = &normalised;
     let bvar = case.builder_variant();
-    if case.fit_layout == "standard" && case.query_layout == "standard" && !bvar {
+    let tvar = case.target_layout != "standard";
+    let skips = !case.skip_setters.is_empty();
+    if case.fit_layout == "standard" && case.query_layout == "standard" && !bvar && !tvar && !skips {
         return run_inner(case, viols);
     }
     let cj = || serde_json::to_value(crate::Case::Tweedie(case.clone())).unwrap();
-    let sig = if case.ctor != "default" { "tweedie.params.constructor_dependence" } else { "tweedie.params.builder_order_dependence" };
-    if bvar {
+    let sig = if case.ctor != "default" {
+        "tweedie.params.constructor_dependence"
+    } else if bvar {
+        "tweedie.params.builder_order_dependence"
+    } else {
+        "tweedie.params.default_differs_from_documentation"
+    };
+    if bvar || skips {
         // (a) the checked parameters must publish the FINAL logical parameter set (no solver involved: in-process)
         let got: Result<(f64, bool, f64, Link, usize, f64), String> = if case.is32() {
             build_f32(case, &case.order(), case.decoys, &case.ctor).check().map(|p| (p.alpha() as f64, p.fit_intercept(), p.power() as f64, p.link(), p.max_iter(), p.tol() as f64)).map_err(|e| e.to_string())
@@ -313,8 +369,8 @@ pub fn run(case: &TwCase, viols: &mut Vec<Violation>) -> Out {
                 viols.push(Violation::new(
                     sig,
                     format!(
-                        "setters in order {:?} (decoys first: {}, constructor {}): the checked parameters publish (alpha, fit_intercept, power, link, max_iter, tol) = {:?}, the final logical parameter set is {:?}",
-                        case.order(), case.decoys, case.ctor, other, want
+                        "setters in order {:?} (decoys first: {}, constructor {}, setters never called: {:?}; those carry the documented defaults): the checked parameters publish (alpha, fit_intercept, power, link, max_iter, tol) = {:?}, the final logical parameter set is {:?}",
+                        case.order(), case.decoys, case.ctor, case.skip_setters, other, want
                     ),
                     cj(),
                 ));
@@ -323,12 +379,16 @@ pub fn run(case: &TwCase, viols: &mut Vec<Violation>) -> Out {
                 return o;
             }
         }
-        if !case.builder_fit {
+        if bvar && !case.builder_fit {
             let mut o = Out::default();
             o.nontrivial = true;
             o.tag("tweedie_builder_getter_only_cases");
             return o;
         }
+    }
+    if !bvar && !tvar && case.fit_layout == "standard" && case.query_layout == "standard" {
+        // only unset parameters: judged by the ordinary oracle against the documented defaults
+        return run_inner(case, viols);
     }
     // variant case: see binary::run
     let mut base = case.clone();
@@ -337,6 +397,7 @@ pub fn run(case: &TwCase, viols: &mut Vec<Violation>) -> Out {
     base.setter_order = None;
     base.decoys = false;
     base.ctor = "default".into();
+    base.target_layout = "standard".into();
     let mut bv = Vec::new();
     let bo = run_inner(&base, &mut bv);
     if !bv.is_empty() || bo.ood {
@@ -351,6 +412,13 @@ pub fn run(case: &TwCase, viols: &mut Vec<Violation>) -> Out {
         }
         for v in lv {
             viols.push(Violation::new(sig, format!("the canonical builder order passes every check; setters in order {:?} (decoys first: {}, constructor {}): [{}] {}", case.order(), case.decoys, case.ctor, v.sig, v.what), cj()));
+        }
+    } else if tvar {
+        // no bit-wise comparison here: sums over a strided target array (mean of y for the start, deviance) are
+        // accumulated in a different order by ndarray, so the two converged fits may differ within the solver tolerance;
+        // each must pass the stationarity oracle
+        for v in lv {
+            viols.push(Violation::new("tweedie.fit.target_layout_dependence", format!("the standard-layout target array passes every check; targets handed over as '{}': [{}] {}", case.target_layout, v.sig, v.what), cj()));
         }
     } else {
         for v in lv {
@@ -558,7 +626,7 @@ fn run_inner(case: &TwCase, viols: &mut Vec<Violation>) -> Out {
 
     out.fingerprint = w.iter().chain(std::iter::once(&b)).chain(pred.iter()).map(|v| v.to_bits()).collect();
     if !inplace_ok {
-        viols.push(Violation::new("tweedie.predict_inplace.stale_buffer", "predict_inplace into a caller-owned NaN-filled buffer does not agree bit-wise with predict()".to_string(), cj()));
+        viols.push(Violation::new("tweedie.predict.calling_form_or_stale_buffer", "predict_inplace into a caller-owned NaN-filled buffer, predict(owned array), predict(owned dataset), predict(&dataset), predict(&dataset of a view) or a one-row batch does not agree with predict(&array)".to_string(), cj()));
     }
     // ---- predictions (the real `predict`, evaluated in the child on tw_queries(x, coef)) ----
     let queries = tw_queries(&xs, &w, is32);
